@@ -9,6 +9,7 @@ Only the baton holder runs; it hands the baton back at every *shared access*:
 A schedule is the list of thread names chosen at the scheduling points; a run is replayed exactly
 from (program, schedule).  No source hook is needed.
 """
+import re
 import threading
 import types
 
@@ -318,6 +319,9 @@ class THandler(_hd.Handler):
         return object.__getattribute__(self, k)
 
 
+_ANSI = re.compile(r"\x1b\[[0-9;]*m")
+
+
 class TracingSink:
     """sink object: write/stop are bracketed by scheduling points; contents recorded"""
 
@@ -335,11 +339,12 @@ class TracingSink:
         if self.busy is not None:
             self.overlap.append((self.busy, me))
         self.busy = me
+        text = _ANSI.sub("", str(message)).strip()
         if s is not None:
-            s.point("wbegin", self.tag, str(message).strip())
-        self.items.append(str(message).strip())
+            s.point("wbegin", self.tag, text)
+        self.items.append(text)
         if s is not None and self.yield_inside:
-            s.point("wend", self.tag, str(message).strip())
+            s.point("wend", self.tag, text)
         self.busy = None
 
     def stop(self):
